@@ -33,6 +33,8 @@ def monitor(kind, steps):
             user_stop = True
         live = started and not user_stop and not internal_stop
         scheds = [o for o in out if o[0] == O_SCHED and o[1] == 0]
+        if scheds or any(o[0] == GL.O_LOOKUP for o in out):
+            escaped = False     # as the model's ghost: a join_and_sync call armed / a generator started since the escape
 
         def expect_retry(k, what):
             nonlocal rn_est
